@@ -1698,7 +1698,7 @@ class Interp:
                 raise self.err(n, "concatenation mixing family and plain items")
             return TV(("fam", fam.domain, self.to_tv(fam.term, n).t), 1)
         if not terms:
-            raise self.err(n, "empty concatenation")
+            return TV(("vcat", ()), 1)
         out = TV(("vcat", tuple(terms)), 1)
         self.check_shape(out, n)
         return out
